@@ -228,7 +228,15 @@ func (x *Explorer) ownsPrefix() bool {
 		}
 		h.Write([]byte{b, byte(d.Kind), byte(d.Val), byte(d.Val >> 8)})
 	}
-	return int(h.Sum32()%uint32(x.ShardN)) == x.ShardI
+	// FNV's low bits depend on the low bits of the input bytes only (the inputs here are nearly all 0/1):
+	// mix before reducing (murmur3 finaliser)
+	v := h.Sum32()
+	v ^= v >> 16
+	v *= 0x85ebca6b
+	v ^= v >> 13
+	v *= 0xc2b2ae35
+	v ^= v >> 16
+	return int(v%uint32(x.ShardN)) == x.ShardI
 }
 
 // branch decides a (possibly symbolic) condition and returns the direction taken.
